@@ -240,3 +240,13 @@ func runCase(p Property, ph *PhaseCfg, t *Tape, st *Stats) (*Violation, Case, []
 	rec := append([]uint64(nil), t.Rec...)
 	return v, c, rec
 }
+
+// shortArgv abbreviates a very long argument vector for descriptions (the replay file re-generates the real one from its tape).
+func shortArgv(argv []string) []string {
+	if len(argv) <= 40 {
+		return argv
+	}
+	out := append([]string{}, argv[:20]...)
+	out = append(out, fmt.Sprintf("... (%d more tokens) ...", len(argv)-25))
+	return append(out, argv[len(argv)-5:]...)
+}
